@@ -1,9 +1,11 @@
 // C13 harness: the session state word (c2/state.go) on the real `state` type.
 //
-// Sequential part (correspondence + oracle): every one of the 2^16 flag states, under a random /
-// boundary group value, is put through every method; the results are emitted as one compact case
-// per flag state (CRow) and evaluated by the Gallina model inside Coq.  Random multi-bit mutator
-// calls (CMut) and random call sequences (CSeq) follow.  The Go-side oracle states the property
+// Sequential part (correspondence + oracle): every one of the 2^16 flag states, under a boundary /
+// hashed group value, is put through every method; the Go-side oracle runs on every row, and the
+// results of 64 consecutive flag states are folded into one digest per CBlock case which the
+// Gallina model recomputes inside Coq (a literal case per row costs Coq more to parse than to
+// evaluate).  Single rows with free group values (CRow: boundary grid + random), random multi-bit
+// mutator calls (CMut) and random call sequences (CSeq) follow.  The Go-side oracle states the property
 // itself: a mutator changes exactly its own bits, the two halves are independent, closed
 // dominates, the channel request protocol, the 'updated' notice is consumed once.
 //
